@@ -15,15 +15,17 @@ theorem tie_statsDummyBin : Hts.Gen.Index.statsDummyBin = (statsDummyBin : Int) 
 /-- `internal.IsValidIndexPos` -/
 theorem tie_validPos (i : Int) : Hts.Gen.Index.isValidIndexPos i = validPos i := rfl
 
-/-- `csi.validIndexPos` for geometries whose shift fits the `uint32` the code computes it in -/
-theorem tie_csiValidPos (i : Int) (ms d : Nat) (h : ms + 3 * d < 4294967296) :
+/-- `csi.validIndexPos` for geometries with `minShift + 3·depth ≤ 63`.  (Beyond that Go's 64-bit `int` shift
+wraps — every position is invalid, see `Csi.posBound` — while the translator's `Int` is unbounded: the
+regenerated kernel is only meaningful in this range.) -/
+theorem tie_csiValidPos (i : Int) (ms d : Nat) (h : ms + 3 * d ≤ 63) :
     Hts.Gen.Index.csiValidIndexPos i (BitVec.ofNat 32 ms) (BitVec.ofNat 32 d) = Hts.Model.Csi.validPos ms d i := by
   unfold Hts.Gen.Index.csiValidIndexPos Hts.Model.Csi.validPos
   have e : (BitVec.ofNat 32 ms + BitVec.ofNat 32 d * 3#32).toNat = ms + 3 * d := by
     rw [BitVec.toNat_add, BitVec.toNat_mul, BitVec.toNat_ofNat, BitVec.toNat_ofNat]
     simp only [BitVec.toNat_ofNat]
     omega
-  rw [e]
+  rw [e, Hts.Model.Csi.posBound_of_le h]
   congr 2
   have : ((1 : Int) * 2 ^ (ms + 3 * d) - 1 - 1) = (2 : Int) ^ (ms + 3 * d) - 2 := by omega
   rw [this]
